@@ -27,7 +27,12 @@ fn value_of(t: &str) -> BoxedStrategy<Vec<ItemSpec>> {
 }
 
 fn token() -> BoxedStrategy<Vec<ItemSpec>> {
-    let name = prop::sample::select(NAMES4.to_vec()).prop_map(|n| vec![ItemSpec::name(n)]);
+    // mostly the four names; sometimes a name that spells an instruction up to letter case
+    let name = prop_oneof![
+        9 => prop::sample::select(NAMES4.to_vec()),
+        1 => prop::sample::select(vec!["noop", "Integer.Dup", "name.quote", "code.definition", "Exec.Define"]),
+    ]
+    .prop_map(|n| vec![ItemSpec::name(n)]);
     let kinds = gen::AtomKinds { instrs: vec!["NOOP".into(), "INTEGER.DUP".into()], ..gen::AtomKinds::all(vec![]) };
     let define = (prop::sample::select(TYPES.to_vec()), prop::sample::select(NAMES4.to_vec()), any::<bool>(), gen::tree(&kinds, 2, 6, 3)).prop_flat_map(|(t, n, quote, body)| {
         value_of(t).prop_map(move |mut v| {
@@ -82,8 +87,25 @@ fn flat_items(s: &StateSpec) -> Vec<ItemSpec> {
     out
 }
 
+/// only kinds whose printed form is exact (no floats, no vectors)
+fn text_exact(t: &ItemSpec) -> bool {
+    t.preorder().iter().all(|x| matches!(x, ItemSpec::List(_) | ItemSpec::Int(_) | ItemSpec::Bool(_) | ItemSpec::Name(_) | ItemSpec::Instr(_)))
+}
+
 fn judge(s: &StateSpec) -> CaseResult {
     let reg: BTreeSet<String> = crate::exec::registry_names().into_iter().collect();
+    // the same program as text: names must be read as names (whatever they resemble), so that
+    // "a name without a binding lands on the NAME stack" also holds for parsed programs
+    if s.exec.iter().all(text_exact) {
+        let text = s.exec.iter().map(|x| x.render()).collect::<Vec<_>>().join(" ");
+        let parsed = crate::props::c03::parse_into(&StateSpec::default(), &text).map_err(|(l, m)| Fail::new(format!("C07/parse/panic@{}", l), m))?;
+        if parsed.exec != s.exec {
+            return Err(Fail::new(
+                "C07/parse/program-text-not-read-as-written",
+                format!("text {:?} parsed to [{}]", text, parsed.exec.iter().map(|x| format!("{:?}", x)).collect::<Vec<_>>().join(" | ").chars().take(400).collect::<String>()),
+            ));
+        }
+    }
     let r = lockstep("C07", s, 400, &reg, &|_, _| false)?;
     // non-trivial: a define followed by a later use of the same name
     let items = flat_items(s);
